@@ -3,8 +3,8 @@
 
     NOT YET PROVED here: that both offsets are CHAR BOUNDARIES of the original (needs the
     UTF-8 boundary lemmas of Proofs/Utf8Proofs.v; covered by the correspondence run, whose
-    inputs are valid UTF-8 with multi-byte characters), and the parse_* operations
-    (added when Model/ParseInt.v is in). *)
+    inputs are valid UTF-8 with multi-byte characters).  parse_u8 .. parse_isize / parse_bool are
+    operations of the model ([OParseInt w sg], [OParseBool]; their bodies are Model/ParseInt.v). *)
 From KV Require Import Base.Prelude Model.Parser Proofs.ParserProofs.
 
 (** [Parser::new] / [with_start_offset] establish the invariant ... *)
